@@ -142,7 +142,7 @@ func offsetString(offMin int, sep string) string {
 	return fmt.Sprintf("%s%02d%s%02d", sign, offMin/60, sep, offMin%60)
 }
 
-const c19SweepPicture = "[Y0001]|[M01]|[D01]|[d]|[FNn]|[MNn]|[W]|[H01]|[h]|[P]|[m]|[s]|[f001]|[Z]|[z]|[Y]|[M]|[D]|[H]|[D1o]|[MN,*-3]|[Fn,*-3]|[Z0101]|[Z01:01t]|[Y01]|[d001]|[PN]|[h01]|[d1o]|[Mn]|[FN]|[m1]|[s1]|[W01]"
+const c19SweepPicture = "[Y0001]|[M01]|[D01]|[d]|[FNn]|[MNn]|[W]|[H01]|[h]|[P]|[m]|[s]|[f001]|[Z]|[z]|[Y]|[M]|[D]|[H]|[D1o]|[MN,*-3]|[Fn,*-3]|[Z0101]|[Z01:01t]|[Y01]|[d001]|[PN]|[h01]|[d1o]|[Mn]|[FN]|[m1]|[s1]|[W01]|[PNn]|[Pn]|[PNn,*-1]|[MNn,*-3]|[FNn,3-3]"
 
 // expectedSweep renders the sweep picture from the independent calendar.
 func expectedSweep(ms int64, offMin int) []string {
@@ -165,6 +165,7 @@ func expectedSweep(ms int64, offMin int) []string {
 		offsetString(offMin, ":"), "GMT" + offsetString(offMin, ":"), fmt.Sprint(c.Y), fmt.Sprint(c.M), fmt.Sprint(c.D), fmt.Sprint(c.H), ordinal(c.D),
 		strings.ToUpper(monthNames[c.M][:3]), strings.ToLower(dayNames[c.WD][:3]), offsetString(offMin, ""), zt, fmt.Sprintf("%02d", c.Y%100), fmt.Sprintf("%03d", c.DOY),
 		strings.ToUpper(p), fmt.Sprintf("%02d", h12), ordinal(c.DOY), strings.ToLower(monthNames[c.M]), strings.ToUpper(dayNames[c.WD]), fmt.Sprint(c.Mi), fmt.Sprint(c.S), fmt.Sprintf("%02d", c.ISOWeek),
+		strings.ToUpper(p[:1]) + p[1:], p, strings.ToUpper(p[:1]), monthNames[c.M][:3], dayNames[c.WD][:3],
 	}
 }
 
